@@ -118,7 +118,7 @@ def _(c):
 @contract(NQ + "count_descendants", props=("C10",))
 def _(c):
     c.param("self", "node").param("leaves_only", "false", "true")
-    c.families = ("plain",)
+    c.families = ("plain", "typed")
     c.result_tag = "int"
     c.pure()
     c.requires("wf", lambda x: And(wf0(x), self_in_P(x)))
@@ -185,7 +185,7 @@ def _(c):
     oracle): it yields the nodes of ([self] +) Pre(self) for which the predicate is true, in order, and stops right
     after the k-th match.  The regex forms (str / (str, flags)) go through `re` and are assumed (bounded tier)."""
     c.param("self", "node").param("match", "cb", "val").param("max_results", "none", "int").param("add_self", "true", "false")
-    c.families = ("plain",)
+    c.families = ("plain", "typed")
     c.result_tag = "pseq"
     c.is_generator = True
     c.pure()
@@ -271,7 +271,7 @@ def _(c):
     """Level order, level by level: level j (Lvl(self, j)) as a whole, reversed when RevAt(revert, toggle, j); stops at
     the first empty level J.  The result is LOP(self, J, revert, toggle) (logic.level_spec)."""
     c.param("self", "node").param("revert", "true", "false").param("toggle", "true", "false")
-    c.families = ("plain",)
+    c.families = ("plain", "typed")
     c.result_tag = "pseq"
     c.is_generator = True
     c.pure()
